@@ -61,10 +61,36 @@ class _FrameTracer(object):
   def __call__(self, frame, event, arg):
     if event == 'line':
       ln = frame.f_lineno
-      if ln != self.last:
+      last = self.last
+      if ln != last:
         self.last = ln
-        self.sim._local_trace(frame, event, arg)
+        sim = self.sim
+        # Leaving a `with` block re-announces the `with` line just before __exit__ is
+        # called, and entering one announces the first body line right after __enter__
+        # returned.  CPython has no eval-breaker check at either place (thread switches,
+        # async exceptions and signal handlers happen after calls, at loop back-edges and
+        # at function entry), and an exception raised *from a trace function* there would
+        # even be attributed to the `with` line, outside the protected range, leaking the
+        # lock.  Those two events are therefore not steps at all.
+        fn = frame.f_code.co_filename
+        if ((ln < last and _is_with_line(fn, ln)) or
+            (ln > last and last > 0 and _is_with_line(fn, last))):
+          return self
+        sim._local_trace(frame, event, arg)
     return self
+
+
+_WITH_LINES = {}
+
+
+def _is_with_line(filename, lineno):
+  key = (filename, lineno)
+  v = _WITH_LINES.get(key)
+  if v is None:
+    import linecache
+    src = linecache.getline(filename, lineno).lstrip()
+    v = _WITH_LINES[key] = src.startswith('with ') or src.startswith('async with ')
+  return v
 
 
 class SimThread(object):
@@ -154,6 +180,7 @@ class Sim(object):
     self.main = None
     self.on_event = None  # optional callback(kind, args) run under the baton
     self.prefer = None    # thread to pick at the next forced pre-emption
+    self.no_raise_here = False
     self.sigint_info = None  # optional callable: extra facts logged when a SIGINT is delivered
     self.watch_calls = frozenset()  # function names whose entry is logged as ('enter', name)
 
@@ -443,11 +470,12 @@ class Sim(object):
     # CPython 3.12 may or may not re-announce a line after a call returns, depending on
     # whether the code object was instrumented before - process history must not matter)
     if event == 'line':
+      no_raise = self.no_raise_here  # (per event: other threads overwrite the attribute)
       self.steps += 1
       nt = self.next_trigger
       if nt is not None and self.steps >= nt:
         self._run_triggers(frame)
-      if self.any_pending or self.sigint_pending:
+      if (self.any_pending or self.sigint_pending) and not no_raise:
         me = cur()
         if me is not None:
           if self.sigint_pending and me.is_main:
@@ -469,7 +497,7 @@ class Sim(object):
             self.preemptions += 1
             self._switch_to(nxt, me)
             self._after_resume(me)
-            if me.pending_exc is not None and me.pending_delay <= 0:
+            if me.pending_exc is not None and me.pending_delay <= 0 and not no_raise:
               self._raise_pending(me, frame.f_code.co_name)
     return None
 
